@@ -119,9 +119,10 @@ def run(ctx):
     from . import par2common as P
     rng = ctx.rng
     e2e = 0
-    for S_, nbytes in ((4, 70), (64, 64 * 5 + 33), (2000, 16 * 2000 + 123)):
+    for S_, nbytes in ((4, 70), (40, 40 * 4 + 7), (64, 64 * 5 + 33), (100, 100 * 3 + 1), (2000, 16 * 2000 + 123)):
         files = {"a.bin": L.gen_content(rng, "random", nbytes), "b.bin": L.gen_content(rng, "random", max(1, nbytes // 3))}
-        sets = [P.PSet(dict(files), S_, 5, g=g) for g in (1, 2, 5, 32)]
+        GS = (1, 2, 4, 5, 6, 8, 15, 17, 32)
+        sets = [P.PSet(dict(files), S_, 5, g=g) for g in GS]
         for s_ in sets:
             s_.bystanders = {}
         cl = [s_.create_line("mem") for s_ in sets]
@@ -140,9 +141,9 @@ def run(ctx):
         d = dmg[sets[0].paths["a.bin"]]
         dmg[sets[0].paths["a.bin"]] = d[:S_] + bytes([d[S_] ^ 1]) + d[S_ + 1:] if len(d) > S_ else d[:-1]
         del dmg[sets[0].paths["b.bin"]]
-        rl = [L.line_repair("p2", "mem", sets[0].index, g % 2 == 0, g, dmg) for g in (1, 2, 5, 32)]
+        rl = [L.line_repair("p2", "mem", sets[0].index, g % 2 == 0, g, dmg) for g in GS]
         ri = [L.parse_result(x) for x in ctx.run_lines(vh, rl)]
-        for g, line, o in zip((1, 2, 5, 32), rl, ri):
+        for g, line, o in zip(GS, rl, ri):
             e2e += 1
             ctx.count("repair-g|%d|%d" % (S_, g), g > 1)
             if o["res"] != ri[0]["res"] or o["changed"] != ri[0]["changed"]:
